@@ -22,11 +22,40 @@ def cases(tier, seed):
     for skip in (False, True):
         for k, r in enumerate(itertools.product(VALUES["color"], VALUES["shape"])):
             yield dict(single=True, skip_errors=skip, remove=None, rows=[[r[0], r[1], "S"], ["red", "sq", "L"]])
+    for single in (False, True):
+        yield dict(kind="refit-detects-again", single=single)
+
+
+def check_refit(c):
+    """columns=None means: the categorical columns are detected at EVERY fit (the estimator fitted on a second frame with other
+    categorical columns encodes those)"""
+    import pandas
+    from mlinsights.mlmodel import CategoriesToIntegers
+    obj = lambda v: pandas.Series(v, dtype=object)
+    a = pandas.DataFrame({"color": obj(["red", "blue", "red"]), "x": [1.0, 2.0, 3.0]})
+    b = pandas.DataFrame({"x": [4.0, 5.0, 6.0], "shape": obj(["sq", "ci", "sq"]), "size": obj(["S", "S", "L"])})
+    m = CategoriesToIntegers(single=c["single"])
+    p0 = dict(m.get_params())
+    m.fit(a)
+    m.transform(a)
+    if dict(m.get_params()) != p0:
+        return dict(**{"class": "params-changed"}, what="fit changed the constructor parameters: %r -> %r" % (p0, m.get_params()))
+    try:
+        m.fit(b)
+        out = m.transform(b)
+    except Exception as e:
+        return dict(**{"class": "refit-other-columns"}, what="refit on a frame with other categorical columns fails: %s: %s" % (type(e).__name__, str(e)[:100]))
+    fresh = CategoriesToIntegers(single=c["single"]).fit(b).transform(b)
+    if list(out.columns) != list(fresh.columns) or not numpy.array_equal(numpy.asarray(out.values, dtype=float), numpy.asarray(fresh.values, dtype=float), equal_nan=True):
+        return dict(**{"class": "refit-other-columns"}, what="refit differs from a fresh estimator: columns %r vs %r" % (list(out.columns), list(fresh.columns)))
+    return None
 
 
 def check(c):
     import pandas
     from mlinsights.mlmodel import CategoriesToIntegers
+    if c.get("kind") == "refit-detects-again":
+        return check_refit(c)
     cats = ["color", "shape", "size"]
     train = pandas.DataFrame({k: pandas.Series(v, dtype=object if k != "x" else float) for k, v in TRAIN.items()})
     idx = [100 + i for i in range(len(c["rows"]))]
